@@ -48,17 +48,39 @@ Flatten(qs) == IF qs = <<>> THEN <<>> ELSE Head(qs) \o Flatten(Tail(qs))
 F(name, holds) == IF holds THEN {} ELSE {name}
 E(name, cond) == IF cond THEN {name} ELSE {}
 
-(* the observer's own record of when each server went down *)
+(* the observer's own record: when each server went down (aux.down) and which *)
+(* allocation the environment last assigned each instance to (aux.alloc)      *)
 DownOf(s0) == [s \in {x \in SrvNames(s0) : s0.servers[x].state = "down"} |-> s0.servers[s].since]
 Without(f, s) == [x \in DOMAIN f \ {s} |-> f[x]]
 With(f, s, v) == [x \in DOMAIN f \cup {s} |-> IF x = s THEN v ELSE f[x]]
-AuxNext(a, pre, line, post) ==
+DownNext(a, pre, line, post) ==
   IF "exc" \in DOMAIN line THEN a
   ELSE IF line.ev = "Down" /\ line.args[1] \in SrvNames(pre)
   THEN IF pre.servers[line.args[1]].state = "down" THEN a ELSE With(a, line.args[1], post.clock)
   ELSE IF line.ev \in {"Up", "Freeze", "RemoveServer", "AddServer"} THEN Without(a, line.args[1])
   ELSE IF line.ev = "L2" THEN DownOf(post)
   ELSE a
+
+AllocNext(al, line, scn) ==
+  IF "exc" \in DOMAIN line THEN al
+  ELSE IF line.ev = "Submit" THEN With(al, line.args[1], scn.aprofiles[line.args[2]].alloc)
+  ELSE IF line.ev = "Move" THEN With(al, line.args[1], line.args[2])
+  ELSE IF line.ev = "RemoveApp" THEN Without(al, line.args[1])
+  ELSE al
+
+AuxNext(a, pre, line, post, scn) ==
+  [down |-> DownNext(a.down, pre, line, post),
+   alloc |-> IF line.ev \in {"Submit", "Move", "RemoveApp"}
+             THEN AllocNext(a.alloc, line, CanonScn(scn)) ELSE a.alloc]
+
+(* C03 with the partition/traits the ENVIRONMENT assigned (not what the code  *)
+(* believes the instance's allocation to be)                                   *)
+C03declared(post, al, scn) ==
+  \A a \in DOMAIN al \cap Placed(post) :
+    LET s == post.apps[a].server x == scn.allocs[al[a]] IN
+    s \in SrvNames(post) =>
+      /\ post.servers[s].label = x.label
+      /\ (post.apps[a].own \cup x.traits) \subseteq post.servers[s].traits
 
 CycleFail(pre, line, post) ==
   LET q == Flatten(line.queues)
@@ -72,7 +94,14 @@ CycleFail(pre, line, post) ==
   \cup F("C05.placedHas", C05placedHas(post)) \cup F("C05.pendingNone", C05pendingNone(post))
   \cup F("C05.avail", C05avail(post))
   \cup F("C07.justified", C07justified(pre, post, q))
-  \cup F("C08.keep", C08keep(pre, post, q, aux)) \cup F("C08.expire", C08expire(pre, post, aux))
+  \cup F("C08.keep", C08keep(pre, post, q, aux.down)) \cup F("C08.expire", C08expire(pre, post, aux.down))
+  \cup (IF aux.alloc # EmptyFn
+        THEN F("C03.declared", C03declared(post, aux.alloc, CanonScn(Traces[t].scn))) ELSE {})
+  \cup (IF "declared" \in DOMAIN line
+        THEN F("C03.declared", \A a \in DOMAIN line.declared \cap Placed(post) :
+                 post.apps[a].server \in SrvNames(post) =>
+                   post.servers[post.apps[a].server].label = line.declared[a])
+        ELSE {})
   \cup F("C08.frozenKeep", C08frozenKeep(pre, post, q))
   \cup F("C08.frozenNoNew", C08frozenNoNew(pre, post))
   \cup F("C08.blacklist", C08blacklist(post))
@@ -123,13 +152,13 @@ Verdict(pre, line, post) ==
 Init == /\ t \in DOMAIN Traces
         /\ i = 1
         /\ st = Canon(Traces[t].lines[1].post)
-        /\ aux = DownOf(Canon(Traces[t].lines[1].post))
+        /\ aux = [down |-> DownOf(Canon(Traces[t].lines[1].post)), alloc |-> EmptyFn]
 
 Next == /\ i < Len(Traces[t].lines)
         /\ i' = i + 1
         /\ t' = t
         /\ st' = Canon(Traces[t].lines[i + 1].post)
-        /\ aux' = AuxNext(aux, st, Traces[t].lines[i + 1], st')
+        /\ aux' = AuxNext(aux, st, Traces[t].lines[i + 1], st', Traces[t].scn)
         /\ LET v == Verdict(st, Traces[t].lines[i + 1], st') IN
            PrintT(ToJson([tid |-> Traces[t].tid, i |-> i, fail |-> v.fail, ex |-> v.ex]))
 
